@@ -278,3 +278,42 @@ Definition op_no_bracket (o : op) : bool :=
   | DelSigRecv gf gs _ => no_bracket gf && no_bracket gs
   | _ => true
   end.
+
+(* ================= shared list objects (appended; nothing above changes) =================
+   Python reference lists are objects: one list may sit in several slots (handed to a Frame and to its Signal, kept by a
+   copy.copy clone, ...).  heap = the list objects, slots hold indices.  rename_ecu / del_ecu rewrite the sender list and
+   the signals' receiver lists IN PLACE (remove / append), while Frame.update_receiver REBINDS: `self.receivers = []`
+   creates a new object and never writes into an existing one.  hrewrite_all is that discipline; the theorem
+   (props/C11.v, C11_shared_lists_transparent) says its result, read through the slots, is the result on the matrix with
+   every slot holding its own copy.  hrewrite_all_inplace is the other discipline (`del self.receivers[:]`), for the witness. *)
+Definition heap := list (list name).
+Record hsig := mkHSig { hs_name : name; hs_cell : nat; hs_pay : Z }.
+Record hframe := mkHFrame { hf_name : name; hf_tx : nat; hf_rx : nat; hf_sigs : list hsig; hf_pay : Z }.
+Definition rd (h : heap) (i : nat) : list name := nth i h [].
+Fixpoint wr (h : heap) (i : nat) (v : list name) : heap :=
+  match h, i with
+  | [], _ => []
+  | _ :: r, O => v :: r
+  | x :: r, S j => x :: wr r j v
+  end.
+Definition deref_sig (h : heap) (s : hsig) : signal := mkSig (hs_name s) (rd h (hs_cell s)) (hs_pay s).
+Definition deref_frame (h : heap) (f : hframe) : frame :=
+  mkFrame (hf_name f) (rd h (hf_tx f)) (rd h (hf_rx f)) (map (deref_sig h) (hf_sigs f)) (hf_pay f).
+Definition hrewrite_cells (g : list name -> list name) (f : hframe) (h : heap) : heap :=
+  fold_left (fun h s => wr h (hs_cell s) (g (rd h (hs_cell s)))) (hf_sigs f)
+            (wr h (hf_tx f) (g (rd h (hf_tx f)))).
+Definition hrewrite_frame (g : list name -> list name) (st : heap * list hframe) (f : hframe) : heap * list hframe :=
+  let h2 := hrewrite_cells g f (fst st) in
+  let rxv := dedup (flat_map (fun s => rd h2 (hs_cell s)) (hf_sigs f)) in
+  (h2 ++ [rxv], snd st ++ [mkHFrame (hf_name f) (hf_tx f) (length h2) (hf_sigs f) (hf_pay f)]).
+Definition hrewrite_all (g : list name -> list name) (h : heap) (fs : list hframe) : heap * list hframe :=
+  fold_left (hrewrite_frame g) fs (h, []).
+Definition hframe_in_range (h : heap) (f : hframe) : Prop :=
+  (hf_tx f < length h)%nat /\ Forall (fun s => (hs_cell s < length h)%nat) (hf_sigs f).
+(* the in-place variant: the receiver list object is emptied and refilled *)
+Definition hrewrite_frame_inplace (g : list name -> list name) (st : heap * list hframe) (f : hframe) : heap * list hframe :=
+  let h2 := wr (hrewrite_cells g f (fst st)) (hf_rx f) [] in
+  let rxv := dedup (flat_map (fun s => rd h2 (hs_cell s)) (hf_sigs f)) in
+  (wr h2 (hf_rx f) rxv, snd st ++ [f]).
+Definition hrewrite_all_inplace (g : list name -> list name) (h : heap) (fs : list hframe) : heap * list hframe :=
+  fold_left (hrewrite_frame_inplace g) fs (h, []).
